@@ -44,7 +44,7 @@ def _who(ctype, v):
     """which completed computation produced v (None if it is not a complete value of this harness)"""
     from taskchain.cache import NO_VALUE
 
-    if v is NO_VALUE:
+    if v is NO_VALUE or (isinstance(v, str) and v == NOV):
         return NOV
     if ctype == 'json':
         if isinstance(v, dict) and set(v) == {'by', 'pad'} and v['pad'] == 'x' * 8:
@@ -71,7 +71,8 @@ def make_cache(ctype, d):
     return {'json': JsonCache, 'numpy': NumpyArrayCache, 'frame': DataFrameCache}[ctype](d)
 
 
-def execute(hname, choices):
+def execute(hname, choices, procs=False):
+    """one controlled execution; procs=True: every caller is its own forked process (sched.ProcRun)"""
     h = harnesses()[hname]
     d = scratch.fresh('c15')
     ctype = h['ctype']
@@ -90,16 +91,26 @@ def execute(hname, choices):
                     run_holder[0].point('compute', name)
                     computed.append(name)
                     return _value(ctype, name)
-                if kind == 'get':
-                    return c.get(KEY)
-                return c.get_or_compute(KEY, comp, force=(kind == 'force'))
+                from taskchain.cache import NO_VALUE
+                r = c.get(KEY) if kind == 'get' else c.get_or_compute(KEY, comp, force=(kind == 'force'))
+                return NOV if (procs and r is NO_VALUE) else r
             return body
         for name, kind, after in h['callers']:
             bodies.append((name, body_for(name, kind), after))
-        run = sched.Run(d, bodies, choices)
-        run_holder.append(run)
-        with sched.armed():
+        if procs:
+            class _Here:  # inside a caller process the armed run is the child's stand-in
+                @staticmethod
+                def point(op, detail):
+                    sched._CURRENT[0].point(op, detail)
+            run_holder.append(_Here)
+            run = sched.ProcRun(d, bodies, choices)
             run.execute()
+            computed = [who for who, op, detail in run.trace if op == 'compute']  # the computer runs right after its point
+        else:
+            run = sched.Run(d, bodies, choices)
+            run_holder.append(run)
+            with sched.armed():
+                run.execute()
         # final state
         path = make_cache(ctype, d).filepath(KEY)
         final = None
@@ -199,13 +210,14 @@ def _explore(args):
     import tcv
 
     tcv.quiet_library()
-    hname, bound, cap, root = args
+    hname, bound, cap, root = args[:4]
+    procs = len(args) > 4 and args[4]
     res = Result()
     outcomes = set()
     windows = 0
 
     def make(choices):
-        run, computed, final = execute(hname, choices)
+        run, computed, final = execute(hname, choices, procs)
         run._computed, run._final = computed, final
         return run
     n = 0
@@ -233,17 +245,17 @@ def _explore(args):
                 break
         for kind, msg in bad:
             ch = [p['chosen'] for p in run.points]
-            res.violations.append(Violation(f'{hname.split("-")[0]}: {kind}', f'harness {hname}, schedule {ch} (trace {[(w, o) for w, o, d in t]}): {msg}',
-                                            {'harness': hname, 'choices': ch}))
+            res.violations.append(Violation(f'{hname.split("-")[0]}{" (processes)" if procs else ""}: {kind}', f'harness {hname}, schedule {ch} (trace {[(w, o) for w, o, d in t]}): {msg}',
+                                            {'harness': hname, 'choices': ch, 'procs': procs}))
         if len(res.violations) > 30:
             break
     capped = bool(cap and n >= cap)
-    res.coverage[f'harness:{hname}'] = {'schedules': n, 'reader_in_write_window': windows, 'capped_subtrees': int(capped)}
-    res.coverage['_outcomes'] = [[hname, repr(o)] for o in outcomes]
+    res.coverage[f'harness:{hname}{"/procs" if procs else ""}'] = {'schedules': n, 'reader_in_write_window': windows, 'capped_subtrees': int(capped)}
+    res.coverage['_outcomes'] = [[hname + ('/procs' if procs else ''), repr(o)] for o in outcomes]
     if root is not None and last is not None and (hash(tuple(root)) % 7 == 0):
         # replay-twice determinism on the last schedule of this subtree
         ch = [p['chosen'] for p in last.points]
-        r2, c2, f2 = execute(hname, ch)
+        r2, c2, f2 = execute(hname, ch, procs)
         if [(w, o) for w, o, d in r2.trace] != [(w, o) for w, o, d in last.trace] or f2 != last._final:
             res.harness_errors.append(f'{hname}: schedule {ch} does not replay deterministically')
         res.add('replayed_twice')
@@ -312,13 +324,28 @@ PLAN = {
 }
 
 
+# the same harnesses with every caller in its own forked process (real inter-process flock, no shared Python state)
+PLAN_PROCS = {
+    'quick': [('H6-two-writers-reader', 2), ('H2-present-forced', 1), ('H7-numpy-reader', 2)],
+    'thorough': [('H1-empty', 2), ('H2-present-forced', 2), ('H3-two-forced', 2), ('H4-happens-before', 2), ('H5-numpy', 1), ('H6-two-writers-reader', 4), ('H7-numpy-reader', 3),
+                 ('H8-frame-reader', 2)],
+}
+
+
 def run(tier, seed):
+    import tcv
+
+    tcv.quiet_library()
     plan = PLAN[tier]
+    pplan = PLAN_PROCS[tier]
     res = Result()
     jobs = []
     for (r, roots), (hname, bound, expect) in zip(pmap(_explore, [(h, b, None, None) for h, b, e in plan]), plan):
         res.merge(r)
         jobs += [(hname, bound, 20000 if tier == 'quick' else 200000, root) for root in roots]
+    for (r, roots), (hname, bound) in zip(pmap(_explore, [(h, b, None, None, True) for h, b in pplan]), pplan):
+        res.merge(r)
+        jobs += [(hname, bound, 20000 if tier == 'quick' else 200000, root, True) for root in roots]
     k = seed % max(1, len(jobs))
     jobs = jobs[k:] + jobs[:k]
     for r, _ in pmap(_explore, jobs, chunksize=2):
@@ -326,6 +353,11 @@ def run(tier, seed):
     outs = res.coverage.pop('_outcomes', [])
     per = {h: res.coverage.pop(f'harness:{h}') for h, b, e in plan}
     res.coverage['per_harness'] = per
+    pper = {h: res.coverage.pop(f'harness:{h}/procs') for h, b in pplan}
+    for hname, bound in pplan:
+        pper[hname]['preemption_bound'] = bound
+        pper[hname]['distinct_outcomes'] = len({o for h, o in outs if h == hname + '/procs'})
+    res.coverage['per_harness_processes'] = pper
     for hname, bound, expect in plan:
         per[hname]['preemption_bound'] = bound
         per[hname]['distinct_outcomes'] = len({o for h, o in outs if h == hname})
@@ -338,11 +370,11 @@ def run(tier, seed):
     res.coverage['states'] = sum(p['distinct_outcomes'] for p in per.values())
     res.coverage['distinct_nontrivial'] = res.coverage['states']
     res.coverage['traces_validated_against_impl'] = res.coverage['evaluations']
-    res.coverage['exhaustive'] = not any(h.get('capped_subtrees') for h in per.values())
+    res.coverage['exhaustive'] = not any(h.get('capped_subtrees') for h in list(per.values()) + list(pper.values()))
     res.coverage['rule'] = ('per harness: every schedule with at most the stated number of preemptions (stateless DFS, choice 0 = keep running the current caller) at the visible operations '
                             'lock-acquire/release, exists, open, read, truncating open, each half of each write, close, unlink, compute; distinct_nontrivial = distinct (returned values, final '
                             'entry, computations) outcomes')
-    res.assumptions += ['callers are threads with their own cache instances and no shared Python state: the file/lock protocol they exercise is what separate processes would exercise',
+    res.assumptions += ['thread legs: callers are threads with their own cache instances; process legs: callers are forked processes - same visible operations, same explorer',
                         'operations between two visible operations are atomic; the lock model is bound to the real FileLock by a timeout=0 acquisition at every grant',
                         '`get` may answer NO_VALUE, and any reader may recompute, whenever a write overlaps it']
     return res
@@ -352,5 +384,6 @@ def replay(case):
     import tcv
 
     tcv.quiet_library()
-    run, computed, final = execute(case['harness'], case['choices'])
-    return [Violation(f'{case["harness"].split("-")[0]}: {k}', m, case) for k, m in judge(case['harness'], run, computed, final)]
+    procs = bool(case.get('procs'))
+    run, computed, final = execute(case['harness'], case['choices'], procs)
+    return [Violation(f'{case["harness"].split("-")[0]}{" (processes)" if procs else ""}: {k}', m, case) for k, m in judge(case['harness'], run, computed, final)]
